@@ -182,6 +182,13 @@ func c06Run(c *Ctx, sc c06Scen, seed uint64) {
 	} else {
 		last1 = envS.Invs[len(envS.Invs)-1]
 		check2("after-stale-flag", cfg2)
+		// history 4: the rerun itself is given a stale -rapid.failfile too: the stored file is still
+		// found ("any fail files found are replayed first") and runs before any random test case
+		os.WriteFile("stale.fail", []byte("# stale\nv0.0.1#3\n0x1"), 0o644)
+		cfg4 := cfg2
+		cfg4.FailFile = "stale.fail"
+		check2("stored+stale-flag", cfg4)
+		os.Remove("stale.fail")
 	}
 	CleanFailFiles()
 }
